@@ -124,6 +124,15 @@ def gen_case(rng, tier):
         mask[0] = True; mask[-1] = True
     elif r < 0.6:
         mask[0] = False; mask[-1] = False
+    if len(shape) >= 2 and rng.random() < 0.2:
+        # content constant along one axis (so that a broadcast-backed array can carry it): data, mask or both
+        ax = int(rng.integers(len(shape))); which = int(rng.integers(3))
+        A = np.array(vals, dtype=float).reshape(shape); M = np.array(mask, dtype=bool).reshape(shape)
+        if which in (0, 2): A = np.broadcast_to(np.take(A, [0], axis=ax), shape)
+        if which in (1, 2): M = np.broadcast_to(np.take(M, [0], axis=ax), shape)
+        vals = np.ascontiguousarray(A).ravel().tolist(); mask = np.ascontiguousarray(M).ravel().tolist()
+    layout = dict(via=str(rng.choice(VIAS, p=[0.3, 0.25, 0.2, 0.1, 0.15])), data=str(rng.choice(LAYOUTS)), mask=str(rng.choice(LAYOUTS)),
+                  seed=int(rng.integers(1 << 30)))
     labels = None
     if rng.random() < 0.7:
         labels = [LABEL_POOL[int(rng.integers(len(LABEL_POOL)))] for _ in shape]
@@ -132,17 +141,104 @@ def gen_case(rng, tier):
     return dict(shape=list(shape), vals=[float(v).hex() if not math.isnan(v) else 'nan' for v in vals], mask=[int(b) for b in mask],
                 folded=bool(rng.random() < 0.45), labels=labels, comments=comments,
                 precision=int(PRECISIONS[int(rng.integers(len(PRECISIONS)))]),
-                extrap=(None if rng.random() < 0.5 else float(rng.uniform(1e-4, 0.1)).hex()))
+                extrap=(None if rng.random() < 0.5 else float(rng.uniform(1e-4, 0.1)).hex()), layout=layout)
 
 def case_vals(c):
     return [float('nan') if v == 'nan' else float.fromhex(v) for v in c['vals']]
 
+LAYOUTS = ['C', 'F', 'perm', 'strided', 'negstride', 'broadcast']
+VIAS = ['ctor', 'ctor_nocopy', 'transpose', 'swapaxes', 'slice']
+
+def _perm(shape, seed):
+    """a non-identity permutation of the axes (identity only for one axis), derived from the case"""
+    n = len(shape)
+    r = np.random.RandomState(seed % (2 ** 31))
+    p = list(r.permutation(n))
+    if n >= 2 and p == list(range(n)):
+        p = p[1:] + p[:1]
+    return [int(x) for x in p]
+
+def lay_out(arr, kind, seed):
+    """an array with the same LOGICAL content as `arr` (same shape, same entry at every index) and the requested memory
+    layout: C, Fortran order, an axis-permuted view of a C array, a [::2,...] view of a larger array, a view with negative
+    strides, a read-only broadcast view (zero strides) when the content is constant along some axis."""
+    arr = np.ascontiguousarray(arr)
+    nd = arr.ndim
+    if kind == 'F':
+        return np.asfortranarray(arr)
+    if kind == 'perm' and nd >= 2:
+        p = _perm(arr.shape, seed)
+        inv = [p.index(i) for i in range(nd)]
+        base = np.ascontiguousarray(arr.transpose(inv))
+        return base.transpose(p)
+    if kind == 'strided':
+        big = np.empty(tuple(2 * s for s in arr.shape), dtype=arr.dtype)
+        big[...] = True if arr.dtype == bool else 777.25
+        v = big[tuple(slice(None, None, 2) for _ in arr.shape)]
+        v[...] = arr
+        return v
+    if kind == 'negstride':
+        sl = tuple(slice(None, None, -1) for _ in arr.shape)
+        return np.ascontiguousarray(arr[sl])[sl]
+    if kind == 'broadcast':
+        for ax in range(nd):
+            if arr.shape[ax] > 1:
+                first = np.take(arr, [0], axis=ax)
+                if np.broadcast_to(first, arr.shape).tobytes() == arr.tobytes():
+                    return np.broadcast_to(first, arr.shape)
+        return lay_out(arr, 'perm', seed) if nd >= 2 else arr
+    return arr
+
 def mk_spec(dadi, c):
-    a = np.array(case_vals(c), dtype=float).reshape(c['shape'])
-    m = np.array(c['mask'], dtype=bool).reshape(c['shape'])
+    """the spectrum of case `c`, built the way c['layout'] says: data and mask get their memory layouts independently
+    (constructor, with or without copy), or the whole Spectrum is an axis-permuted / swapped / sliced VIEW of another one.
+    Whatever the route, the LOGICAL content (entry at every index, mask, flags, labels) is the one the case lists — checked
+    here, a mismatch is a harness error, not a finding."""
+    shape = tuple(c['shape'])
+    a = np.array(case_vals(c), dtype=float).reshape(shape)
+    m = np.array(c['mask'], dtype=bool).reshape(shape)
     ex = None if c.get('extrap') is None else float.fromhex(c['extrap'])
-    return dadi.Spectrum(a, mask=m, mask_corners=False, data_folded=bool(c['folded']), check_folding=False,
-                         pop_ids=None if c['labels'] is None else list(c['labels']), extrap_x=ex)
+    labels = None if c['labels'] is None else list(c['labels'])
+    lay = c.get('layout') or {}
+    via = lay.get('via', 'ctor'); seed = int(lay.get('seed', 0)); nd = len(shape)
+    kw = dict(mask_corners=False, data_folded=bool(c['folded']), check_folding=False, pop_ids=labels, extrap_x=ex)
+    if via == 'transpose' and nd >= 2:
+        p = _perm(shape, seed); inv = [p.index(i) for i in range(nd)]
+        base = dadi.Spectrum(np.ascontiguousarray(a.transpose(inv)), mask=np.ascontiguousarray(m.transpose(inv)), **kw)
+        g = base.transpose(p)
+    elif via == 'swapaxes' and nd >= 2:
+        i, j = sorted(np.random.RandomState(seed % (2 ** 31)).choice(nd, size=2, replace=False).tolist())
+        base = dadi.Spectrum(np.ascontiguousarray(np.swapaxes(a, i, j)), mask=np.ascontiguousarray(np.swapaxes(m, i, j)), **kw)
+        g = np.swapaxes(base, i, j)
+    elif via == 'slice':
+        bd = np.full(tuple(2 * s for s in shape), 555.5); bm = np.ones(tuple(2 * s for s in shape), dtype=bool)
+        sl = tuple(slice(None, None, 2) for _ in shape)
+        bd[sl] = a; bm[sl] = m
+        g = dadi.Spectrum(bd, mask=bm, **kw)[sl]
+    else:
+        da = lay_out(a, lay.get('data', 'C'), seed); ma = lay_out(m, lay.get('mask', 'C'), seed + 1)
+        g = dadi.Spectrum(da, mask=ma, copy=(via != 'ctor_nocopy'), **kw)
+    if type(g) is not dadi.Spectrum:
+        raise common.Infra('harness: layout route %r did not produce a Spectrum' % (lay,))
+    g.pop_ids = labels; g.folded = bool(c['folded']); g.extrap_x = ex
+    ok = (tuple(g.shape) == shape and same_floats(np.array(g.data.tolist(), dtype=float), a)
+          and np.array(np.ma.getmaskarray(g).tolist(), dtype=bool).reshape(shape).tolist() == m.tolist())
+    if not ok:
+        raise common.Infra('harness: layout route %r changed the logical content of the case' % (lay,))
+    return g
+
+def layout_stats(chk, g, c):
+    lay = c.get('layout') or {}
+    chk.stat('layout_via_' + lay.get('via', 'ctor'))
+    if lay.get('via', 'ctor') in ('ctor', 'ctor_nocopy'):
+        chk.stat('layout_data_' + lay.get('data', 'C')); chk.stat('layout_mask_' + lay.get('mask', 'C'))
+    d = np.asarray(g.data); mk = np.ma.getmaskarray(g)
+    chk.stat('data_' + ('c_contiguous' if d.flags.c_contiguous else ('f_contiguous' if d.flags.f_contiguous else 'noncontiguous')))
+    chk.stat('mask_' + ('c_contiguous' if mk.flags.c_contiguous else ('f_contiguous' if mk.flags.f_contiguous else 'noncontiguous')))
+    if d.size > 1 and d.ravel(order='K').tobytes() != np.ascontiguousarray(d).ravel().tobytes():
+        chk.stat('memory_order_differs_from_logical_order')
+    if len(set(c['shape'])) > 1:
+        chk.stat('unequal_axis_lengths')
 
 def value_classes(vals):
     s = set()
@@ -157,8 +253,10 @@ def value_classes(vals):
 
 def case_key(c, what):
     lab = 'none' if c['labels'] is None else ('space' if any((' ' in l or '\t' in l) for l in c['labels']) else 'plain')
+    lay = c.get('layout') or {}
+    lk = (lay.get('via', 'ctor'),) + ((lay.get('data', 'C'), lay.get('mask', 'C')) if lay.get('via', 'ctor') in ('ctor', 'ctor_nocopy') else ())
     return (what, len(c['shape']), 1 in c['shape'], c['folded'], lab, len(c['comments']), c['precision'], value_classes(case_vals(c)),
-            int(sum(c['mask'])) in (0, len(c['mask'])))
+            int(sum(c['mask'])) in (0, len(c['mask'])), lk, len(set(c['shape'])) > 1)
 
 # ------------------------------------------------------------------ L3: the property on the real code
 def fail_once(chk, seen, key, what, inp):
@@ -204,8 +302,12 @@ def l3_file(chk, ctx, c, tmp, ext, seen):
     tag = 'gz' if ext else 'plain'
     chk.l3(case_key(c, 'file' + ext))
     chk.stat('l3_file_' + tag)
+    alias = bool((c.get('layout') or {}).get('seed', 0) % 3 == 0)        # every third case goes through the tofile/fromfile aliases
+    writer = fs.tofile if alias else fs.to_file
+    reader = dadi.Spectrum.fromfile if alias else dadi.Spectrum.from_file
+    chk.stat('l3_file_alias_names' if alias else 'l3_file_primary_names')
     try:
-        fs.to_file(path, precision=p, comment_lines=list(c['comments']))
+        writer(path, precision=p, comment_lines=list(c['comments']))
     except Exception as e:
         key = 'to_file:%s:%s' % (tag, type(e).__name__)
         if key not in seen:
@@ -233,9 +335,9 @@ def l3_file(chk, ctx, c, tmp, ext, seen):
     for mc in (False, True):
         try:
             if mc:
-                g = dadi.Spectrum.from_file(path); coms = None            # defaults: mask_corners=True, no comments
+                g = reader(path); coms = None            # defaults: mask_corners=True, no comments
             else:
-                g, coms = dadi.Spectrum.from_file(path, mask_corners=False, return_comments=True)
+                g, coms = reader(path, mask_corners=False, return_comments=True)
         except Exception as e:
             key = 'from_file:%s:%s' % (tag, type(e).__name__)
             if key not in seen:
@@ -363,7 +465,8 @@ def l3_array(chk, ctx, c, tmp, masked, fileobj, seen):
     vals = case_vals(c); p = c['precision']
     inp = dict(kind='array', case=c, masked=masked, fileobj=fileobj)
     chk.l3(case_key(c, 'array%d%d' % (masked, fileobj))); chk.stat('l3_array')
-    arr = mk_spec(dadi, c) if masked else np.array(vals, dtype=float).reshape(c['shape'])
+    lay = c.get('layout') or {}
+    arr = mk_spec(dadi, c) if masked else lay_out(np.array(vals, dtype=float).reshape(c['shape']), lay.get('data', 'C'), int(lay.get('seed', 0)))
     want = [float('nan') if (masked and m) else v for v, m in zip(vals, c['mask'])]
     path = tmp.path('.txt')
     try:
@@ -707,6 +810,21 @@ EDGE_CASES = [
          labels=['pop 1', 'pop  2', 'folded'], comments=['unfolded', ' # ', 'x'], precision=16, extrap=None),
     dict(shape=[2, 3], vals=[0.1, 0.2, 0.30000000000000004, 1 / 3.0, 2 / 3.0, 1e22], mask=[0, 0, 0, 0, 0, 0], folded=False,
          labels=['a', 'b'], comments=[], precision=30, extrap=None),
+    # memory layout: the same logical content held in transposed / swapped / Fortran / strided / broadcast storage
+    dict(shape=[4, 2, 3], vals=[float(i) + 0.5 for i in range(24)], mask=[int(i % 5 == 0) for i in range(24)], folded=False,
+         labels=['p', 'q', 'r'], comments=['transpose(2,0,1)-like view'], precision=17, extrap=None, layout=dict(via='transpose', seed=5)),
+    dict(shape=[3, 5], vals=[float(i * i) for i in range(15)], mask=[0] * 15, folded=False, labels=None, comments=[], precision=16, extrap=None,
+         layout=dict(via='swapaxes', seed=1)),
+    dict(shape=[3, 5], vals=[float(i) / 7 for i in range(15)], mask=[int(i in (0, 7, 14)) for i in range(15)], folded=True, labels=['a', 'b'],
+         comments=[], precision=17, extrap=0.02, layout=dict(via='ctor', data='F', mask='C', seed=2)),
+    dict(shape=[2, 3, 2], vals=[float(i) for i in range(12)], mask=[int(i % 2) for i in range(12)], folded=False, labels=None, comments=['x'],
+         precision=16, extrap=None, layout=dict(via='ctor_nocopy', data='perm', mask='F', seed=3)),
+    dict(shape=[3, 4], vals=[float(i) for i in range(12)], mask=[1, 0, 0, 1] * 3, folded=False, labels=None, comments=[], precision=16, extrap=None,
+         layout=dict(via='ctor_nocopy', data='negstride', mask='broadcast', seed=4)),
+    dict(shape=[5, 3], vals=[float(i) for i in range(15)], mask=[0] * 15, folded=False, labels=['big', 'small'], comments=[], precision=16,
+         extrap=None, layout=dict(via='slice', seed=6)),
+    dict(shape=[7], vals=[float(i) for i in range(7)], mask=[1, 0, 0, 0, 0, 0, 1], folded=True, labels=['one'], comments=[], precision=16,
+         extrap=None, layout=dict(via='ctor_nocopy', data='strided', mask='negstride', seed=7)),
 ]
 
 def norm_case(c):
@@ -758,8 +876,9 @@ def run(chk, ctx):
             chk.stat('comments_%d' % len(c['comments']))
             chk.stat('precision_%d' % c['precision'])
             for cl in value_classes(case_vals(c)): chk.stat('values_' + cl)
+            layout_stats(chk, mk_spec(ctx['dadi'], c), c)
             if i < 4 or i == len(EDGE_CASES):
-                chk.sample(dict(shape=c['shape'], folded=c['folded'], labels=c['labels'], comments=c['comments'], precision=c['precision'],
+                chk.sample(dict(layout=c.get('layout'), shape=c['shape'], folded=c['folded'], labels=c['labels'], comments=c['comments'], precision=c['precision'],
                                 values=[fmt_tok(17, v) for v in case_vals(c)[:8]], mask=c['mask'][:8]))
             run_case(chk, ctx, c, tmp, rng, seen)
     finally:
